@@ -342,7 +342,7 @@ def c15(tier, seed):
         if "error" in ap.values():
             raise ToolError(f"Apalache refutes the inductive invariant of Detect_Ind.tla: {ap}")
     evs = c.drive("default", "api", steps=60 if thorough else 20, walks=3 if thorough else 1)
-    evs += renumber(c.drive("aes-detect-off", "api", family="AES", mix_arms=1, steps=80 if thorough else 30, walks=4 if thorough else 1), 10_000_000)
+    evs += renumber(c.drive("aes-detect-off", "api", family="AES", mix_arms=1, steps=80 if thorough else 40, walks=12 if thorough else 5), 10_000_000)
     c.validate(evs, API_MOD, API_CFG, "hist", what="history independence")
     # process-global state: the same observations in differently ordered processes must agree
     for cfg_id in ("default", "dev-soft", "dev-compact"):
